@@ -1,0 +1,58 @@
+//! Verification hooks (cargo feature `verif-hooks`, off by default).
+//!
+//! Nothing in here changes what the library computes: the hooks only count events and,
+//! when a monitor has armed a budget, stop a runaway decode by unwinding with a marker payload.
+
+use std::cell::Cell;
+use std::sync::atomic::{AtomicU64, Ordering};
+
+/// Payload of the unwind raised when an armed step budget is exceeded.
+#[derive(Debug, Clone, Copy)]
+pub struct StepBudgetExceeded {
+    pub steps: u64,
+}
+
+thread_local! {
+    static SEQ_ITEMS: Cell<u64> = const { Cell::new(0) };
+    static SEQ_BUDGET: Cell<u64> = const { Cell::new(u64::MAX) };
+}
+
+static METADATA_BUILT: AtomicU64 = AtomicU64::new(0);
+
+/// Called once per item yielded by the sequence deserializer.
+#[inline]
+pub fn seq_item() {
+    let n = SEQ_ITEMS.with(|c| {
+        let n = c.get() + 1;
+        c.set(n);
+        n
+    });
+    let budget = SEQ_BUDGET.with(|c| c.get());
+    if n > budget {
+        // disarm first, so that unwinding code can not re-trigger
+        SEQ_BUDGET.with(|c| c.set(u64::MAX));
+        std::panic::panic_any(StepBudgetExceeded { steps: n });
+    }
+}
+
+/// Resets the per-thread item counter and arms (or, with `u64::MAX`, disarms) the budget.
+pub fn arm_seq_budget(budget: u64) {
+    SEQ_ITEMS.with(|c| c.set(0));
+    SEQ_BUDGET.with(|c| c.set(budget));
+}
+
+/// Items yielded on this thread since the last `arm_seq_budget`.
+pub fn seq_items() -> u64 {
+    SEQ_ITEMS.with(|c| c.get())
+}
+
+/// Called once per constructed `AdtMetadata`.
+#[inline]
+pub fn metadata_built() {
+    METADATA_BUILT.fetch_add(1, Ordering::SeqCst);
+}
+
+/// Number of `AdtMetadata` values constructed in this process so far.
+pub fn metadata_built_count() -> u64 {
+    METADATA_BUILT.load(Ordering::SeqCst)
+}
